@@ -13,7 +13,7 @@ func init() {
 	p := &propDef{
 		ID:      "C18",
 		Level:   "other",
-		Explain: "Structural necessary conditions of bounded, draining shutdown, decided per implementation / per path; sites are found by ROLE inside REGIONS (an entry plus the helpers, closures and methods it runs), not by the name of the function that happens to contain them. (D1) every repo implementation of proxy.Server.Shutdown(ctx) lets its ctx reach something that can bound it (a receive/select on ctx.Done(), or a call that is handed the context - repository callees are looked into, logging does not count); it runs no unbounded blocking primitive (grpc GracefulStop, WaitGroup.Wait of a long-lived WaitGroup, Cond.Wait) synchronously - called, deferred or inside a helper; the join of a local WaitGroup whose goroutines are themselves bounded is not such a wait - and it does not wait unconditionally (receive or select without a ctx.Done()/deadline case) on a channel that is signalled only after such a primitive returned in a goroutine, unless a forced stop (grpc Stop) precedes the wait; (D2) every Server.Shutdown invocation in the region of proxy.Shutdown receives a context from WithTimeout/WithDeadline(Background, <derived from the timeout parameter>), no cancel function created outside is handed (captured or passed) to the per-server goroutines, and every caller passes cfg.Proxy.ShutdownWait; (J1) for the go statement(s) whose goroutine performs the server Shutdown: wg.Add precedes it in the same iteration (or once with a computed count; in the function of the go or before every call of the helper containing it), Done runs on every way out of the goroutine, Wait follows on every path to return (possibly after the call of the helper) and no loop contains both the start of a server shutdown and the Wait, and no mutex is held where the Wait (or a helper that waits) is executed; a join over a channel is accepted when the region uses no WaitGroup; (L1) every Lock in packages proxy and proxy/tcp is released on every path to every return (Unlock called, deferred, in a deferred closure or in a helper; a pure acquire helper is judged at its call sites; mutexes are identified by the type/variable that holds them); (O1) in tcp.Server.Shutdown the elements of the collection of net.Listener are closed on every path before the wait on ctx.Done(), no element of the collection of net.Conn is closed before it and they are closed on every path after it (collections found by type, closes and wait may sit in helpers or be inlined); (R1) the registry of running servers (a map of Server in package proxy, variable or field) is written only under a lock, every Serve call on a server in package proxy outside the Serve methods of composite servers is preceded on every path by a registration (in the function, in a helper, or before every call site), and every ListenAndServe* reaches such a call; (E1) the function handed to exit.Listen deregisters, sleeps the grace period (or skips it on a branch decided by the grace period itself), then calls proxy.Shutdown, in that order - each step directly or in a helper / local closure; (R3) proxy.Shutdown empties the registry inside the critical section that reads it (same lock hold, possibly in helpers called under it); (X1) package exit does not release its signal registration (signal.Stop/Reset/Ignore, directly or in a helper, not deferred) on a path that reaches the exit-handler call without a new signal.Notify. Not decided: wall-clock bounds (timing).",
+		Explain: "Structural necessary conditions of bounded, draining shutdown, decided per implementation / per path; sites are found by ROLE inside REGIONS (an entry plus the helpers, closures and methods it runs), not by the name of the function that happens to contain them. (D1) every repo implementation of proxy.Server.Shutdown(ctx) lets its ctx reach something that can bound it (a receive/select on ctx.Done(), or a call that is handed the context - repository callees are looked into, logging does not count); it runs no unbounded blocking primitive (grpc GracefulStop, WaitGroup.Wait of a long-lived WaitGroup, Cond.Wait) synchronously - called, deferred or inside a helper; the join of a local WaitGroup whose goroutines are themselves bounded is not such a wait - and it does not wait unconditionally (receive or select without a ctx.Done()/deadline case) on a channel that is signalled only after such a primitive returned in a goroutine, unless a forced stop (grpc Stop) precedes the wait; (D2) every Server.Shutdown invocation in the region of proxy.Shutdown receives a context from WithTimeout/WithDeadline(Background, <derived from the time.Duration parameter of proxy.Shutdown or from cfg.Proxy.ShutdownWait itself; values are followed through struct fields>), no cancel function created outside is handed (captured or passed) to the per-server goroutines, and every caller passes cfg.Proxy.ShutdownWait; (J1) for the go statement(s) whose goroutine performs the server Shutdown: wg.Add precedes it in the same iteration (or once with a computed count; in the function of the go or before every call of the helper containing it), Done runs on every way out of the goroutine, Wait follows on every path to return (possibly after the call of the helper) and no loop contains both the start of a server shutdown and the Wait, and no mutex is held where the Wait (or a helper that waits) is executed; a join over a channel is accepted when the region uses no WaitGroup; work handed to errgroup.Group.Go / WaitGroup.Go counts as a started goroutine whose Add/Done the group does; (L1) every Lock in packages proxy and proxy/tcp is released on every path to every return (Unlock called, deferred, in a deferred closure or in a helper; a pure acquire helper is judged at its call sites; mutexes are identified by the type/variable that holds them); (O1) in tcp.Server.Shutdown and what it runs synchronously - helpers, deferred calls, a callback parameter resolved to what Shutdown passes on that path, a method behind a small interface whose concrete type is visible, a function kept in a struct field - the elements of the collections of net.Listener are closed on every path before the wait on ctx.Done(), no element of the collections of net.Conn is closed before it and they are closed on every path after it (collections are the struct fields of package proxy/tcp of such a collection type, in the server or in a small type it delegates to; each fact is decided in the function that holds the wait, otherwise at its call site one frame up, and so on up to Shutdown); (R1) the registry of running servers (a map of Server, or of a small record holding a Server, in package proxy, variable or field) is written only under a lock, every Serve call on a server in package proxy outside the Serve methods of composite servers is preceded on every path by a registration (in the function, in a helper, or before every call site), and every ListenAndServe* reaches such a call; (E1) the function handed to exit.Listen deregisters, sleeps the grace period (or skips it on a branch decided by the grace period itself), then calls proxy.Shutdown, in that order - each step directly or in a helper / local closure; (R3) proxy.Shutdown empties the registry inside the critical section that reads it (same lock hold, possibly in helpers called under it); (X1) package exit does not release its signal registration (signal.Stop/Reset/Ignore, directly or in a helper, not deferred) on a path that reaches the exit-handler call without a new signal.Notify. Not decided: wall-clock bounds (timing).",
 		Run:     runC18,
 		Trusted: []string{"net/http.Server.Shutdown honours its context", "context.WithTimeout cancels after the timeout", "grpc.Server.Stop forcibly closes open streams"},
 		Mutants: []mutant{
@@ -90,6 +90,48 @@ func init() {
 			{Name: "grace sleep skipped for SIGINT", File: "main.go", Old: c18SrcExitHandler, New: c18SrcExitHandlerSleepOnlyOnTerm, Expect: "C18.E1"},
 			{Name: "helper shape: signal.Reset inside the helper that calls the handler", File: "exit/listen.go", Old: c18SrcExitCall, New: c18SrcExitCallHelperReset, Expect: "C18.X1"},
 			{Name: "helper shape: registration released by a helper before the handler", File: "exit/listen.go", Old: c18SrcExitCall, New: c18SrcExitCallReleaseHelper, Expect: "C18.X1"},
+
+			// ---- hardening round 2: a step handed around as a value (callback, small interface, function in a struct
+			// field), bookkeeping in a small type, fan-out helpers taking closures, deferred steps, copied durations
+			{Name: "benign: tcp close helpers inlined into one method, the wait forwarded as a callback through a second helper", File: "proxy/tcp/server.go", Old: c18SrcTCPStopBlock, New: c18SrcTCPStopCallbackForwarded, Expect: ""},
+			{Name: "callback shape: wait called before the listeners are closed", File: "proxy/tcp/server.go", Old: c18SrcTCPStopBlock, New: c18SrcTCPStopCallbackWaitFirst, Expect: "C18.O1"},
+			{Name: "callback shape: connections closed before the wait callback", File: "proxy/tcp/server.go", Old: c18SrcTCPStopBlock, New: c18SrcTCPStopCallbackConnsFirst, Expect: "C18.O1"},
+			{Name: "callback shape: Shutdown passes a no-op like Close", File: "proxy/tcp/server.go", Old: c18SrcTCPStopBlock, New: c18SrcTCPStopCallbackNothingPassed, Expect: "C18.D1"},
+			{Name: "benign: tcp wait behind a small interface (noWait / untilDone{ctx})", File: "proxy/tcp/server.go", Old: c18SrcTCPStopBlock, New: c18SrcTCPStopIface, Expect: ""},
+			{Name: "interface shape: connections closed before w.wait()", File: "proxy/tcp/server.go", Old: c18SrcTCPStopBlock, New: c18SrcTCPStopIfaceConnsFirst, Expect: "C18.O1"},
+			{Name: "interface shape: listeners closed after w.wait()", File: "proxy/tcp/server.go", Old: c18SrcTCPStopBlock, New: c18SrcTCPStopIfaceListenersLate, Expect: "C18.O1"},
+			{Name: "benign: tcp stop sequence run by a small struct, the pause kept in a func field", File: "proxy/tcp/server.go", Old: c18SrcTCPCloseShutdown, New: c18SrcTCPStopper, Expect: ""},
+			{Name: "stopper shape: connections closed before the pause", File: "proxy/tcp/server.go", Old: c18SrcTCPCloseShutdown, New: c18SrcTCPStopperConnsFirst, Expect: "C18.O1"},
+			{Name: "benign: tcp listeners/conns/mutex in an embedded tracker type with the close methods, conns closed from a snapshot", File: "proxy/tcp/server.go", Old: c18SrcTCPServerFields, New: c18SrcTCPServerFieldsTracker, More: []repl{{c18SrcTCPCloseHelpers, c18SrcTCPCloseHelpersTracker}}, Expect: ""},
+			{Name: "tracker shape: wait before closing listeners", File: "proxy/tcp/server.go", Old: c18SrcTCPServerFields, New: c18SrcTCPServerFieldsTracker, More: []repl{{c18SrcTCPCloseHelpers, c18SrcTCPCloseHelpersTracker}, {c18SrcTCPShutdown, c18SrcTCPShutdownWaitFirst}}, Expect: "C18.O1"},
+			{Name: "benign: tcp closeConns deferred", File: "proxy/tcp/server.go", Old: c18SrcTCPShutdown, New: c18SrcTCPShutdownDeferConns, Expect: ""},
+			{Name: "closeListeners deferred: runs after the wait", File: "proxy/tcp/server.go", Old: c18SrcTCPShutdown, New: c18SrcTCPShutdownDeferListeners, Expect: "C18.O1"},
+			{Name: "benign: proxy.Shutdown through a fan-out helper that takes the per-server work as a closure", File: "proxy/serve.go", Old: c18SrcShutdown, New: c18SrcShutdownFanOutHelper, Expect: ""},
+			{Name: "fan-out helper shape: the helper does not wait", File: "proxy/serve.go", Old: c18SrcShutdown, New: c18SrcShutdownFanOutHelperNoWait, Expect: "C18.J1"},
+			{Name: "fan-out helper shape: the helper runs the servers one after the other", File: "proxy/serve.go", Old: c18SrcShutdown, New: c18SrcShutdownFanOutHelperSerial, Expect: "C18.J1"},
+			{Name: "fan-out helper shape: per-server timeout is a constant", File: "proxy/serve.go", Old: c18SrcShutdown, New: c18SrcShutdownFanOutHelperConst, Expect: "C18.D2"},
+			{Name: "server drained by a helper that CloseProxy calls with the registry lock held", File: "proxy/serve.go", Old: c18SrcCloseProxyClose, New: c18SrcCloseProxyDrainHelper, More: []repl{{"func Close() {", c18SrcDrainOneHelper}}, Expect: "C18.L2"},
+			{Name: "benign: gRPC graceful/forced stop handed to a helper as method values", File: "proxy/grpc_handler.go", Old: c18SrcGrpcShutdown, New: c18SrcGrpcShutdownCallbacks, Expect: ""},
+			{Name: "method-value shape: graceful() called synchronously", File: "proxy/grpc_handler.go", Old: c18SrcGrpcShutdown, New: c18SrcGrpcShutdownCallbacksSync, Expect: "C18.D1"},
+			{Name: "method-value shape: completion awaited unconditionally after the race", File: "proxy/grpc_handler.go", Old: c18SrcGrpcShutdown, New: c18SrcGrpcShutdownCallbacksAwait, Expect: "C18.D1"},
+			{Name: "benign: exit handler as a type, durations copied into its fields, method value registered", File: "main.go", Old: c18SrcExitHandlerFull, New: c18SrcExitHandlerStruct, More: []repl{{c18SrcMainTypeAnchor, c18SrcExitHandlerTypeDecl}}, Expect: ""},
+			{Name: "handler type shape: the two durations swapped when the handler is built", File: "main.go", Old: c18SrcExitHandlerFull, New: c18SrcExitHandlerStructSwapped, More: []repl{{c18SrcMainTypeAnchor, c18SrcExitHandlerTypeDecl}}, Expect: "C18.D2"},
+			{Name: "handler type shape: proxy.Shutdown before deregistration and grace period", File: "main.go", Old: c18SrcExitHandlerFull, New: c18SrcExitHandlerStruct, More: []repl{{c18SrcMainTypeAnchor, c18SrcExitHandlerTypeDeclLate}}, Expect: "C18.E1"},
+
+			// replaced data structures
+			{Name: "benign: WaitGroup replaced by errgroup.Group", File: "proxy/serve.go", Old: c18SrcShutdown, New: c18SrcShutdownErrgroup, More: []repl{{c18ImportGrpc, c18ImportGrpcErrgroup}}, Expect: ""},
+			{Name: "errgroup shape: nobody waits for the group", File: "proxy/serve.go", Old: c18SrcShutdown, New: c18SrcShutdownErrgroupNoWait, More: []repl{{c18ImportGrpc, c18ImportGrpcErrgroup}}, Expect: "C18.J1"},
+			{Name: "errgroup shape: the group's context (cancelled by the first error) is what every server gets", File: "proxy/serve.go", Old: c18SrcShutdown, New: c18SrcShutdownErrgroupSharedCtx, More: []repl{{c18ImportGrpc, c18ImportGrpcErrgroup}}, Expect: "C18.D2"},
+			{Name: "benign: registry keeps a record (server, listener) per address", File: "proxy/serve.go", Old: c18SrcRegistryBlock, New: c18SrcRegistryEntries, More: []repl{{c18SrcServeHead, c18SrcServeHeadEntries}}, Expect: ""},
+			{Name: "record shape: draining servers stay registered", File: "proxy/serve.go", Old: c18SrcRegistryBlock, New: c18SrcRegistryEntriesNotEmptied, More: []repl{{c18SrcServeHead, c18SrcServeHeadEntries}}, Expect: "C18.R3"},
+			{Name: "record shape: registration without the lock", File: "proxy/serve.go", Old: c18SrcRegistryBlock, New: c18SrcRegistryEntries, More: []repl{{c18SrcServeHead, c18SrcServeHeadEntriesUnlocked}}, Expect: "C18.R1"},
+			{Name: "benign: gRPC graceful stop as a small type, completion channel in a field", File: "proxy/grpc_handler.go", Old: c18SrcGrpcShutdown, New: c18SrcGrpcShutdownStopping, Expect: ""},
+			{Name: "stopping-type shape: completion awaited unconditionally", File: "proxy/grpc_handler.go", Old: c18SrcGrpcShutdown, New: c18SrcGrpcShutdownStoppingAwait, Expect: "C18.D1"},
+			{Name: "benign: exit listener as a type (handler and signal channel in fields, capture/handle/run methods)", File: "exit/listen.go", Old: c18SrcExitListen, New: c18SrcExitListenType, Expect: ""},
+			{Name: "listener-type shape: signal.Stop before the handler method", File: "exit/listen.go", Old: c18SrcExitListen, New: c18SrcExitListenTypeStop, Expect: "C18.X1"},
+			{Name: "benign: composite server's per-child call behind a small interface, fan-out in a helper", File: "proxy/inetaf_tcpproxy.go", Old: c18SrcInetAfFanOut, New: c18SrcInetAfFanOutIface, Expect: ""},
+			{Name: "child-call interface shape: Shutdown fans out the graceless call, ctx unused", File: "proxy/inetaf_tcpproxy.go", Old: c18SrcInetAfFanOut, New: c18SrcInetAfFanOutIfaceNoCtx, Expect: "C18.D1"},
+			{Name: "benign: tcp wait callback is a method value of a small struct carrying ctx", File: "proxy/tcp/server.go", Old: c18SrcTCPStopBlock, New: c18SrcTCPStopMethodValue, Expect: ""},
 		},
 	}
 	// development aid: C18_MUTANT=<substring> restricts `verifcheck mutants C18` to the mutants whose name contains it
@@ -105,6 +147,17 @@ func init() {
 	register(p)
 }
 
+// c18GroupGo / c18GroupWait: starting work through a group that owns the goroutine and the counting, and its join.
+var c18GroupGo = map[string]bool{
+	"(*golang.org/x/sync/errgroup.Group).Go": true,
+	"(*sync.WaitGroup).Go":                   true,
+}
+
+var c18GroupWait = map[string]bool{
+	"(*sync.WaitGroup).Wait":                   true,
+	"(*golang.org/x/sync/errgroup.Group).Wait": true,
+}
+
 var unboundedBlocking = map[string]bool{
 	"(*google.golang.org/grpc.Server).GracefulStop": true,
 	"(*sync.WaitGroup).Wait":                        true,
@@ -117,6 +170,7 @@ var forcedStop = map[string]bool{
 }
 
 func runC18(c *Ctx) {
+	c18Use(c)
 	runC18D1(c)
 	runC18D2J1(c)
 	runLockPairing(c, "C18.L1", []string{"proxy", "proxy/tcp"})
@@ -173,6 +227,14 @@ func c18CtxBounds(ctx ssa.Value) bool {
 							visit(val, depth+1)
 						}
 					}
+					if !c18IsCtx(v.Type()) {
+						// a small interface that carries the context (`waiter.wait()`): the concrete methods behind it
+						for _, g := range (&c18Frame{fn: x.Parent()}).concreteMethods(v, cc.Method) {
+							if len(g.Params) > 0 {
+								visit(g.Params[0], depth+1)
+							}
+						}
+					}
 					continue // ctx.Err(), ctx.Value(): not a use that bounds anything
 				}
 				if !cc.IsInvoke() && cc.Value == v {
@@ -213,6 +275,13 @@ func c18CtxBounds(ctx ssa.Value) bool {
 			case *ssa.Store:
 				if x.Val == v {
 					visit(x.Addr, depth+1)
+					// stored into a field / element of a local struct or array: whoever gets that value gets the context
+					switch a := x.Addr.(type) {
+					case *ssa.FieldAddr:
+						visit(a.X, depth+1)
+					case *ssa.IndexAddr:
+						visit(a.X, depth+1)
+					}
 				}
 			case *ssa.Return:
 				// handed back to the callers of a helper: follow the results at its static call sites
@@ -246,6 +315,12 @@ func c18Unbounded(i ssa.Instruction, depth int) string {
 	}
 	n := calleeName(cc)
 	if !unboundedBlocking[n] {
+		// a function value that denotes the primitive (`graceful()` where the caller passed s.server.GracefulStop)
+		for _, dn := range c18DynNames(cc) {
+			if unboundedBlocking[dn] {
+				return dn
+			}
+		}
 		return ""
 	}
 	if n != "(*sync.WaitGroup).Wait" || depth > 2 || len(cc.Args) == 0 {
@@ -453,8 +528,17 @@ func runC18D1(c *Ctx) {
 			// after a forced stop the awaited work is known to end (Trusted)
 			forced := false
 			eachInstr(i.Parent(), func(s ssa.Instruction) {
-				if cc := callCommon(s); cc != nil && forcedStop[calleeName(cc)] && dominatesInstr(s, i) {
+				cc := callCommon(s)
+				if cc == nil || !dominatesInstr(s, i) {
+					return
+				}
+				if forcedStop[calleeName(cc)] {
 					forced = true
+				}
+				for _, dn := range c18DynNames(cc) {
+					if forcedStop[dn] {
+						forced = true
+					}
 				}
 			})
 			if forced {
@@ -494,11 +578,20 @@ func runC18D2J1(c *Ctx) {
 	if !c.need("C18.D2", sd, "proxy.Shutdown") {
 		return
 	}
-	if len(sd.Params) != 1 {
-		c.undecided("C18.D2", "proxy.Shutdown|timeout parameter", "proxy.Shutdown no longer has exactly one parameter")
-		return
+	// the wait: the time.Duration parameter(s) of proxy.Shutdown; without one, the configured value itself
+	durIdx := map[int]bool{}
+	isTimeout := func(v ssa.Value) bool {
+		if _, ok := fieldOf(v, "config.Proxy", "ShutdownWait"); ok {
+			return true
+		}
+		p, ok := v.(*ssa.Parameter)
+		return ok && p.Parent() == sd && typeStr(p.Type()) == "time.Duration"
 	}
-	timeout := sd.Params[0]
+	for k, p := range sd.Params {
+		if isTimeout(p) {
+			durIdx[k] = true
+		}
+	}
 	reg := c18Region(c, sd)
 	// D2: every Shutdown(ctx) invoke in the region of proxy.Shutdown gets a ctx from WithTimeout/WithDeadline(Background, <timeout-derived>)
 	n := 0
@@ -522,11 +615,11 @@ func runC18D2J1(c *Ctx) {
 			default:
 				return false
 			}
-			bg := derives(call.Call.Args[0], func(p ssa.Value) bool {
+			bg := c18Derives(call.Call.Args[0], func(p ssa.Value) bool {
 				_, is := isCallTo(p, "context.Background", "context.TODO")
 				return is
 			})
-			fromParam := derives(call.Call.Args[1], func(p ssa.Value) bool { return p == timeout })
+			fromParam := c18Derives(call.Call.Args[1], isTimeout)
 			if bg && fromParam {
 				ok = true
 			}
@@ -546,17 +639,32 @@ func runC18D2J1(c *Ctx) {
 		}
 		return false
 	}
+	// (a go statement, or handing the work to a group that starts the goroutine and does the Add/Done bookkeeping
+	// itself: errgroup.Group.Go, sync.WaitGroup.Go)
 	type fanOut struct {
-		goI  *ssa.Go
-		body []*ssa.Function
+		goI     ssa.Instruction
+		body    []*ssa.Function
+		managed bool      // started through a group's Go method
+		work    ssa.Value // the function value that is started
+		args    []ssa.Value
 	}
 	var fans []fanOut
 	eachInstrOf(reg, func(_ *ssa.Function, i ssa.Instruction) {
-		g, isGo := i.(*ssa.Go)
-		if !isGo {
+		var targets []*ssa.Function
+		fan := fanOut{goI: i}
+		switch g := i.(type) {
+		case *ssa.Go:
+			targets = c18Targets(&g.Call)
+			fan.work, fan.args = g.Call.Value, g.Call.Args
+		case *ssa.Call:
+			if !c18GroupGo[calleeName(&g.Call)] || len(g.Call.Args) != 2 {
+				return
+			}
+			targets = c18FuncsOf(g.Call.Args[1])
+			fan.work, fan.managed = g.Call.Args[1], true
+		default:
 			return
 		}
-		targets := c18Targets(&g.Call)
 		does := false
 		eachInstrOf(c18Region(c, targets...), func(_ *ssa.Function, x ssa.Instruction) {
 			if isInvoke(x) {
@@ -564,7 +672,8 @@ func runC18D2J1(c *Ctx) {
 			}
 		})
 		if does {
-			fans = append(fans, fanOut{g, targets})
+			fan.body = targets
+			fans = append(fans, fan)
 		}
 	})
 
@@ -582,14 +691,14 @@ func runC18D2J1(c *Ctx) {
 	}
 	for _, fan := range fans {
 		shared := false
-		if mc, isMC := fan.goI.Call.Value.(*ssa.MakeClosure); isMC {
+		if mc, isMC := fan.work.(*ssa.MakeClosure); isMC {
 			for _, b := range mc.Bindings {
 				if isCancel(b) {
 					shared = true
 				}
 			}
 		}
-		for _, a := range fan.goI.Call.Args {
+		for _, a := range fan.args {
 			if isCancel(a) {
 				shared = true
 			}
@@ -607,11 +716,16 @@ func runC18D2J1(c *Ctx) {
 			}
 			nm++
 			cc := callCommon(i)
-			ok := derives(cc.Args[0], func(v ssa.Value) bool {
-				_, is := fieldOf(v, "config.Proxy", "ShutdownWait")
-				return is
-			})
-			c.check("C18.D2", fnKey(f)+"|proxy.Shutdown(cfg.Proxy.ShutdownWait)", i.Pos(), ok, "proxy.Shutdown must be given the configured proxy.shutdownwait; got "+shortPath(cc.Args[0]))
+			ok, got := true, ""
+			for k, a := range cc.Args {
+				if durIdx[k] && !c18Derives(a, func(v ssa.Value) bool {
+					_, is := fieldOf(v, "config.Proxy", "ShutdownWait")
+					return is
+				}) {
+					ok, got = false, shortPath(a)
+				}
+			}
+			c.check("C18.D2", fnKey(f)+"|proxy.Shutdown(cfg.Proxy.ShutdownWait)", i.Pos(), ok, "proxy.Shutdown must be given the configured proxy.shutdownwait; got "+got)
 		})
 	}
 	c.atLeast("C18.D2", "calls of proxy.Shutdown", nm, 1)
@@ -625,7 +739,7 @@ func runC18D2J1(c *Ctx) {
 	// per-server goroutine sends on (or closes) and the starting side receives from
 	usesWG := false
 	eachInstrOf(reg, func(_ *ssa.Function, i ssa.Instruction) {
-		if cc := callCommon(i); cc != nil && strings.HasPrefix(calleeName(cc), "(*sync.WaitGroup).") {
+		if cc := callCommon(i); cc != nil && (strings.HasPrefix(calleeName(cc), "(*sync.WaitGroup).") || c18GroupGo[calleeName(cc)] || c18GroupWait[calleeName(cc)]) {
 			usesWG = true
 		}
 	})
@@ -673,7 +787,7 @@ func runC18D2J1(c *Ctx) {
 			return ok && u.Op == token.ARROW && onJoinChan(u.X)
 		}
 		call, ok := i.(*ssa.Call)
-		return ok && calleeName(&call.Call) == "(*sync.WaitGroup).Wait"
+		return ok && c18GroupWait[calleeName(&call.Call)]
 	}
 	doneOp := func(j ssa.Instruction) bool {
 		if _, isGo := j.(*ssa.Go); isGo {
@@ -742,12 +856,12 @@ func runC18D2J1(c *Ctx) {
 			}
 			return true
 		}
-		c.check("C18.J1", key+"|wg.Add before go", goI.Pos(), chanJoin || okAdd(goI, 0), "wg.Add(1) must precede each go statement in the same iteration; otherwise Wait can return before the server shutdowns ran")
+		c.check("C18.J1", key+"|wg.Add before go", goI.Pos(), chanJoin || fan.managed || okAdd(goI, 0), "wg.Add(1) must precede each go statement in the same iteration; otherwise Wait can return before the server shutdowns ran")
 
 		// Done on every way out of the goroutine (deferred, or explicitly on every path to return)
 		okDone := len(fan.body) > 0
 		for _, g := range fan.body {
-			if !mustExec(g, isDone, 0) {
+			if !fan.managed && !mustExec(g, isDone, 0) {
 				okDone = false
 			}
 		}
@@ -806,6 +920,7 @@ func runC18D2J1(c *Ctx) {
 // (called, deferred, inside a deferred closure, or inside a helper that unlocks on all its paths). A helper whose only
 // job is to acquire (it never releases the mutex and is only called statically) is judged at its call sites.
 func runLockPairing(c *Ctx, rule string, pkgs []string) {
+	c18Use(c)
 	n := 0
 	releases := func(key, want string) func(ssa.Instruction) bool {
 		direct := func(i ssa.Instruction) bool {
